@@ -30,7 +30,9 @@ HOSTILE = ['\\', '\\0', '\\110000', '\\d800', '\\ffffff', '\\ffffff0', '"', "'",
            '::', '@', '|', '*', ',', '>', '+', '~', '!', '=', '\n', '\r\n', '\f', '\x00', '￿', '\\\n', '\\\r',
            '#', '.', '&', ':is(', ':not(', ':has(', ':nth-child(', ' of ', ':lang(', ':dir(', ':-soup-contains(',
            '--', ':--', '\\)', 'n', '-n', '+', '\ud800', '\U0010ffff', '^=', '$=', '|=', '~=', ' i]', '@page', '@P',
-           '::before', '\t', '{', '}', '%', '2n+1', 'even', '0x', '\\26 ']
+           '::before', '\t', '{', '}', '%', '2n+1', 'even', '0x', '\\26 ',
+           # complete comments, also straight after a hex escape (where the grammar allows white space *or* a comment)
+           '/**/', '/* c */', '\\41/**/', '\\a /**/', '\\10ffff/***/']
 
 ALLOWED = (sv.SelectorSyntaxError, NotImplementedError)
 CUSTOM_OK = {':--foo': 'p > a', ':--bar': ':--foo:is(b)'}
@@ -95,6 +97,9 @@ def gen_custom(ch):
         return m
     for _ in range(ch.i(0, 4)):
         name = ch.pick(NAME_POOL) if ch.p(0.8) else ':--' + ch.text(5, surrogates=True)
+        if ch.p(0.3):
+            # a name that went through the same hostile edits as patterns do (escapes, comments, controls inside it)
+            name = mutate(ch, name)[:40]
         r = ch.i(0, 9)
         if r <= 3:
             val = gen_valid(ch)
